@@ -14,7 +14,7 @@
 using namespace SimTK;
 using std::string;
 
-static string num(double x) { char b[40]; snprintf(b, sizeof b, "%.17g", x); return b; }
+static string num(double x) { if (x != x) return "NaN"; if (x > 1e308) return "Infinity"; if (x < -1e308) return "-Infinity"; char b[40]; snprintf(b, sizeof b, "%.17g", x); return b; }
 static string jv(const Vec3& v) { return "[" + num(v[0]) + "," + num(v[1]) + "," + num(v[2]) + "]"; }
 static const Vec3 MIX(1, 2, -1);      // the Vec3-valued variants carry the scalar function times this vector
 
@@ -105,8 +105,12 @@ static string run(const mj::Value& c) {
         const Differentiator::Method meth[2] = {Differentiator::ForwardDifference, Differentiator::CentralDifference};
         const char* mname[2] = {"forward", "central"};
         for (int mi = 0; mi < 2; ++mi) {
-            QJac fj(m, acc); Differentiator dj(fj, c["asdefault"].num() ? meth[mi] : Differentiator::UnspecifiedMethod);
-            const Differentiator::Method arg = c["asdefault"].num() ? Differentiator::UnspecifiedMethod : meth[mi];
+            // the method is named per call (0), given to the constructor (1), or set with setDefaultMethod() on an object that
+            // was built with the OTHER method (2)
+            const int how = (int)c["asdefault"].num();
+            QJac fj(m, acc); Differentiator dj(fj, how == 1 ? meth[mi] : how == 2 ? meth[1 - mi] : Differentiator::UnspecifiedMethod);
+            if (how == 2) dj.setDefaultMethod(meth[mi]);
+            const Differentiator::Method arg = how ? Differentiator::UnspecifiedMethod : meth[mi];
             Matrix J; m.calls = 0; dj.calcJacobian(y, fy, J, arg); const int c1 = m.calls;
             m.calls = 0; Matrix J2 = dj.calcJacobian(y, arg); const int c2 = m.calls;
             js << ",\"" << mname[mi] << "\":{\"J\":" << jmat(J) << ",\"J2\":" << jmat(J2) << ",\"calls\":" << c1 << ",\"calls2\":" << c2
